@@ -92,6 +92,12 @@ def gen_tasks(tier, seed):
                     if "solution_weights_superset" in extra:
                         t_.update({"allow_empty": True, "superset": [5]})
                     tasks.append(t_)
+        # greedy shortcut against every 2-edge constraint (not sampled)
+        if fl and name in F.CURATED_DAGS:
+            for c2 in [c for c in sps if len(c) == 2][:8]:
+                cs2 = [[list(e) for e in c2]]
+                tasks.append({**base, "kind": "fd", "cls": "kFlowDecomp", "edges": I.with_flow(es, fl), "constraints": cs2, "coverage": 1.0, "greedy": True,
+                              "kwargs": {"k": k + 1, "weight_type": "int", "subpath_constraints": cs2, "subpath_constraints_coverage": 1.0}})
         # frame: additional starts/ends enlarge the admissible routes by exactly those starting/ending there
         if inner:
             v, w = rng.choice(inner), rng.choice(inner)
@@ -113,6 +119,12 @@ def gen_tasks(tier, seed):
             for kind, cls in (("lae", "kLeastAbsErrors"), ("mpe", "kMinPathError")):
                 tasks.append({**base, "kind": kind, "cls": cls, "edges": arb, "ignored": [list(e0), list(e1)], "kwargs": {"k": k, "weight_type": "int", "elements_to_ignore": [list(e0), list(e1)]}})
                 tasks.append({**base, "kind": kind, "cls": cls, "edges": arb, "scaling": [[list(e0), 0], [list(e1), 0.5]], "kwargs": {"k": k, "weight_type": "int", "error_scaling": [[list(e0), 0], [list(e1), 0.5]]}})
+    hb = [("s", "u", 5), ("u", "v", 3), ("u", "x", 2), ("x", "v", 2), ("v", "w", 2), ("v", "z", 3), ("w", "t", 2), ("z", "t", 3)]
+    for cs_h in ([[["u", "v"], ["v", "w"]]], [[["u", "v"]]], [[["x", "v"], ["v", "z"]]]):
+        for kk in (2, 3):
+            tasks.append({"name": "greedy_bypass", "cyc": False, "starts": [], "ends": [], "ignored": [], "scaling": None, "node_mode": False, "allow_empty": False,
+                          "kind": "fd", "cls": "kFlowDecomp", "edges": hb, "constraints": cs_h, "coverage": 1.0, "greedy": True,
+                          "kwargs": {"k": kk, "weight_type": "int", "subpath_constraints": cs_h, "subpath_constraints_coverage": 1.0}})
     for name, es in I.digraphs(tier, rng, quick_n=6, thorough_n=40):
         arb = I.with_flow(es, I.arbitrary_weights(es, rng, (0, 1, 2)))
         base = {"name": name, "cyc": True, "starts": [], "ends": [], "ignored": [], "scaling": None, "node_mode": False, "allow_empty": False}
